@@ -1,4 +1,5 @@
 import GixModel.Model.C24Core
+import GixModel.Basic.Dec
 /-
 C25 — model of the index *writer* (gix-index, SHA-1 repositories).
 
@@ -64,8 +65,8 @@ def requiredVersion (es : List Entry) : Nat := if es.any isExtended then 3 else 
 /-- `write::header` -/
 def writeHeader (version n : Nat) : Bytes := sigDIRC ++ (be32 version ++ be32 n)
 
-/-- `itoa` of an unsigned number -/
-def itoaNat (n : Nat) : Bytes := (Nat.toDigits 10 n).map fun c => UInt8.ofNat c.toNat
+/-- `itoa` of an unsigned number (`digitsFuel` with enough fuel: one unit per digit) -/
+def itoaNat (n : Nat) : Bytes := digitsFuel 10 (n + 1) n
 
 mutual
   /-- `tree_entry` in `Tree::write_to` -/
